@@ -144,6 +144,16 @@ func buildC16Replies() []c16Reply {
 	return rs
 }
 
+// c16Patience: how long a step of this case may take before it counts as hung.  The very
+// deep replies are tens of megabytes that the component has to tokenise: real work, slow on
+// a starved machine.
+func c16Patience(in c16In) time.Duration {
+	if in.Depth > 10000 {
+		return 10 * c16Wait
+	}
+	return c16Wait
+}
+
 // c16DeepReply: <kind><delegation><forwarded> repeated depth times, then closed again
 // (about 90 bytes per level; built when it is sent, never stored in a case file).
 func c16DeepReply(kind string, depth int) string {
@@ -700,7 +710,7 @@ func c16Serve(ln net.Listener, in c16In, atProlog <-chan struct{}, released chan
 	out := rp.wire
 	if strings.HasPrefix(in.Reply, "other:deep-delegation-") {
 		out = c16DeepReply(strings.TrimPrefix(in.Reply, "other:deep-delegation-"), in.Depth)
-		conn.SetWriteDeadline(time.Now().Add(c16Wait))
+		conn.SetWriteDeadline(time.Now().Add(c16Patience(in)))
 	}
 	if rp.open && !in.Close {
 		out += c16Probe
@@ -847,7 +857,7 @@ func (c16) Run(inp interface{}) Sx {
 	var cerr error
 	select {
 	case cerr = <-errCh:
-	case <-time.After(2 * c16Wait):
+	case <-time.After(2 * c16Patience(in)):
 		ln.Close()
 		go cleanup()
 		return c16Timeout("Connect did not return")
